@@ -63,6 +63,9 @@ def run(chk):
             # keys that look like glob patterns must be deleted literally, never as patterns
             d = dict(list(d.items()) + [(chk.rng.choice(["*", "a*", "?", "*b", "??"]), chk.rng.choice(evalgen.INTS[:4]))])
             items = list(d.items()); chk.rng.shuffle(items); d = dict(items)
+        if chk.rng.random() < 0.25:
+            import c16
+            d = c16.numkeys(d, chk.rng)      # string keys that look like numbers are deleted as strings
         g.set_doc(d)
         globk = [k for k in d if any(c in k for c in "*?")] if isinstance(d, dict) else []
         if globk and chk.rng.random() < 0.6:
@@ -78,6 +81,15 @@ def run(chk):
         sel = chk.rng.choice([("index", ("self",), lit(chk.rng.choice([0, 1, 2, -1]))),
                               ("pipe", ("index", ("self",), None), ("select", (chk.rng.choice(["lt", "gt", "eq"]), ("self",), lit(chk.rng.choice([1, 2, 5]))))),
                               ("union", ("index", ("self",), lit(0)), ("index", ("self",), lit(2)))])
+        derived.append((f, sel, d))
+    for _ in range(n // 6):
+        # containers created by an assignment (no tag yet), then a delete inside them
+        d = evalgen.gen_doc(chk.rng)
+        g.set_doc(d)
+        base = g.simple_path(allow_new=False) if chk.rng.random() < 0.5 else ()
+        newp = tuple(base) + (chk.rng.choice(["x", "y"]),) + tuple(chk.rng.choice([("k",), (2,), ("k", 1), (1, "k")]))
+        f = ("assign", path_expr(newp), lit(chk.rng.choice([1, "v"])))
+        sel = path_expr(newp[:len(base) + 1] + ((0,) if isinstance(newp[len(base) + 1], int) else (newp[len(base) + 1],)))
         derived.append((f, sel, d))
     # ---- fresh documents: oracle = reference removal of the paths the selection reports
     reqs = []
